@@ -125,6 +125,9 @@ func runC13(env *lib.Env, rep *lib.Report) {
 		{"refused-select-unknown-table;insert1", "t1x8", []string{"refused-select-unknown-table", "insert1"}, 1, 0, false, false, false},
 		{"refused-select-unknown-column;update", "t1x8", []string{"refused-select-unknown-column", "update"}, 1, 0, false, false, false},
 		{"refused-create-duplicate;insert1", "t1x8", []string{"refused-create-duplicate", "insert1"}, 1, 0, false, false, false},
+		// a database whose log has grown beyond a megabyte: an engine that does something about its log (checkpoint,
+		// rotation) does it inside some statement - that statement is bracketed like any other
+		{"insert1;update/long-log", "t1x8+long-log", []string{"insert1", "update"}, 1, 0, false, false, false},
 		// the CREATE TABLE that makes the page table grow a level (its seventh user table)
 		{"create/7th-table", "six-tables", []string{"create"}, 2, 0, false, false, false},
 		// the store opened without log fsync: durability is weaker, the order "log before pages" is not
